@@ -281,7 +281,7 @@ theorem pendCount_unique {pool : List WP} {k : Nat} (h : pendCount k pool ≤ 1)
       | tail _ h2' =>
         exact ih (by split at h <;> omega) h1' h2'
 
-/-- the routers that keep a key with the slot that has it pending: key-persistent, and (since the F11 fix) sticky -/
+/-- the routers that keep a key with the slot that has it pending: key-persistent, and (since the F13 fix) sticky -/
 structure AffInv (w : W) : Prop where
   kp : w.cfg.router = .kp ∨ w.cfg.router = .sq
   nodup : NodupW w.pool
